@@ -85,7 +85,7 @@ void harness(void)
 		CHECK(r == 0 && src_calls == 0, "C16/C13: nothing is read or examined once 256 KiB have been scanned");
 		CHECK(st.leadin_len == len0, "buffer untouched past the limit");
 	} else {
-		CHECK(src_calls >= 1 && src_asked == 24 - len0, "the refill asks for exactly the free space of the 24-byte window");
+		CHECK(src_calls >= 1 && src_asked == sizeof(st.leadin) - len0, "the refill asks for exactly the free space of the lead-in window");
 		if (ret <= 0) {
 			CHECK(r == 0 && src_calls == 1, "C13: end of data or an error ends the scan at once");
 			CHECK(st.leadin_len == len0, "buffer unchanged when nothing arrived");
